@@ -40,9 +40,13 @@ def worker(idx, queue, results, lock):
                 continue
             res = {}
             for p in ([sid[:3]] if OWN else ALL):
-                r = sh(f"cd {verif} && ./check {p} --tier quick", env=env)
-                line = next((l for l in r.stdout.splitlines() if l.startswith("VIOLATION")), "")
-                res[p] = {"exit": r.returncode, "caught": r.returncode == 1 and bool(line),
+                try:
+                    r = sh(f"cd {verif} && ./check {p} --tier quick", env=env, timeout=2400)
+                    rc, text = r.returncode, r.stdout
+                except subprocess.TimeoutExpired:
+                    rc, text = 124, ""
+                line = next((l for l in text.splitlines() if l.startswith("VIOLATION")), "")
+                res[p] = {"exit": rc, "caught": rc == 1 and bool(line),
                           "no_failing_input_found": line.endswith("no-failing-input-found")}
             sh(f"git -C {repo} checkout -- .")
             with lock:
